@@ -69,6 +69,27 @@ static inline void KB_U(unsigned long v)
 }
 static inline void KB_I(long v) { if (v < 0) { KB_C('-'); KB_U((unsigned long)-v); } else KB_U((unsigned long)v); }
 
+/* KB_MEM: serialise n bytes of library-owned memory into the key, word by word, with every address replaced by a symbol
+ * (heap addresses differ from replay to replay): sym() names the words the world knows (its own objects, callbacks, blocks);
+ * other pointers into tracked blocks become L<tag>+off / D (freed block); anything else is data and printed as is. */
+typedef int (*mc_symfn)(uintptr_t v);
+static void KB_X(unsigned long v) { static const char hx[] = "0123456789abcdef"; int i, st = 0; for (i = 60; i >= 0; i -= 4) { int d = (int)((v >> i) & 15); if (d || st || i == 0) { KB_C(hx[d]); st = 1; } } }
+static void KB_MEM(const void *p, size_t n, mc_symfn sym)
+{
+    size_t i;
+    for (i = 0; i + sizeof(uintptr_t) <= n; i += sizeof(uintptr_t)) {
+        uintptr_t v; shim_blk *b;
+        memcpy(&v, (const char *)p + i, sizeof v);
+        KB_C('.');
+        if (v == 0) { KB_C('0'); continue; }
+        if (sym && sym(v)) continue;
+        if ((b = shim_find((const void *)v)) != NULL || (v > 0x10000 && (b = shim_find((const void *)(v - 1))) != NULL)) { KB_C('L'); KB_I(b->tag); KB_C('+'); KB_U((unsigned long)(v - (uintptr_t)b->p)); continue; }
+        if (v > 0x10000 && shim_find_dead((const void *)v) != NULL) { KB_C('D'); continue; }
+        KB_X(v);
+    }
+    for (; i < n; i++) { KB_C(':'); KB_X(((const unsigned char *)p)[i]); }
+}
+
 static void mc_failv(unsigned props, const char *fmt, va_list ap)
 {
     if (!mc_checking) return;
